@@ -146,4 +146,6 @@ void *sym_at(int i, const char **name);
 const char *sym_name(void *addr);
 void note_called(const char *name);
 
+volatile int *find_self_test_word(void (*setter)(int));
+
 #endif
